@@ -461,6 +461,7 @@ func (w *responseWriter) WriteMsg(m *dns.Msg) error {
 	// modified) version. If nothing survives — every AAAA was
 	// excluded, or there were none to begin with — fall through
 	// to the synthesis path.
+	strippedAAAA := 0
 	if m.Rcode == dns.RcodeSuccess {
 		filtered, hadAAAA, kept, stripped := w.filterUpstreamAAAA(m)
 		if hadAAAA && kept > 0 {
@@ -479,6 +480,7 @@ func (w *responseWriter) WriteMsg(m *dns.Msg) error {
 			return w.ResponseWriter.WriteMsg(filtered)
 		}
 		m = filtered
+		strippedAAAA = stripped
 	}
 
 	synth, err := w.synthesise(m)
@@ -492,6 +494,14 @@ func (w *responseWriter) WriteMsg(m *dns.Msg) error {
 		// A lookup failed or yielded nothing usable; preserve the
 		// original (already AAAA-filtered) answer rather than
 		// papering over it. Reason has already been counted.
+		if strippedAAAA > 0 && m.AuthenticatedData {
+			// m is the filtered copy: every AAAA was dropped from
+			// it, so the validator's AD no longer covers what the
+			// client is about to see — same rule as the partial
+			// strip above.
+			m.AuthenticatedData = false
+			dnsutil.SetEDE(m, dns.ExtendedErrorCodeForgedAnswer, "DNS64 filtered IPv4-mapped AAAA")
+		}
 		return w.ResponseWriter.WriteMsg(m)
 	}
 	Synthesised.Inc()
